@@ -90,7 +90,13 @@ def crash_points(ctx, cfg, cov):
 
 def continuations(ctx, cfg, hist):
     """list of (events, observations of the original, kind)"""
-    out = [(p, o, "tree") for p, o in tw.cont_paths(ctx, hist, cfg["h"])]
+    h = cfg["h"]
+    b = len(ctx.node(hist)[0])
+    while h > 1 and b ** h > cfg.get("max_paths", 1300):
+        h -= 1  # many workers: keep the continuation tree of this crash point within the path budget
+    if h < cfg["h"]:
+        ctx.cache["__h_reduced__"] = ctx.cache.get("__h_reduced__", 0) + 1
+    out = [(p, o, "tree") for p, o in tw.cont_paths(ctx, hist, h)]
     if cfg.get("drain") or cfg.get("long", True):
         have = {p for p, _, _ in out}
         for pol in DRAIN_POLICIES:
@@ -285,6 +291,10 @@ def task(cfg):
         cov.extra["max_crash_depth"] = max(cov.extra.get("max_crash_depth", 0), len(hist))
     cov.extra["suggestions_equal_only_up_to_1e-5"] = tw.NEAR[0]
     tw.NEAR[0] = 0
+    if ctx.cache.get("__h_reduced__"):
+        cov.extra["crash_points_with_reduced_h"] = ctx.cache["__h_reduced__"]
+        cov.cap("continuation depth reduced by one or more at crash points whose branching b gives b^h > %d paths"
+                % cfg.get("max_paths", 1300))
     cpu = time.process_time() - t0
     cov.extra["max_task_cpu_s"] = round(cpu, 1)
     cov.extra["cpu_s_total"] = round(cpu, 1)
